@@ -53,7 +53,12 @@ def apply_impl(st, op):
     elif k == "compactify":
         st.compactify()
     elif k == "set":
-        st[op["var"]] = op["vals"]
+        if op.get("copy_from"):
+            st[op["var"]] = st[op["copy_from"]]          # assignment from another state variable
+        elif op.get("inplace_add") is not None:
+            st[op["var"]] += op["inplace_add"]           # the in-place idiom of trackers and IBMs
+        else:
+            st[op["var"]] = op["vals"]
     else:
         raise RuntimeError(k)
 
@@ -107,6 +112,10 @@ class Gen:
             return dict(op="set", var="X", vals=[100 + self.fresh() for _ in range(self.n)])
         if kind == "Sage":
             return dict(op="set", var="age", vals=[self.fresh() for _ in range(self.n)])
+        if kind == "Scopy":
+            return dict(op="set", var="age", vals=None, copy_from="X")      # vals filled from the state at run time
+        if kind == "Iadd":
+            return dict(op="set", var="X", vals=None, inplace_add=1)
         if kind == "Sw":
             return dict(op="set", var="w0", vals=None)  # filled from current npid at run time
         if kind == "Epid":
@@ -123,7 +132,7 @@ class Gen:
 
 
 ALPHA_CORE = ["A1", "A2", "A3", "K", "Klast", "C", "S", "Anan", "Eshape"]
-ALPHA_ALL = ALPHA_CORE + ["A0", "Ks", "Sage", "Epid", "Ename"]
+ALPHA_ALL = ALPHA_CORE + ["A0", "Ks", "Sage", "Epid", "Ename", "Scopy", "Iadd"]
 
 
 def run_sequence(ctx: Ctx, kinds):
@@ -133,6 +142,10 @@ def run_sequence(ctx: Ctx, kinds):
     got = []
     for k in kinds:
         op = g.make(k)
+        if op.get("copy_from"):
+            op["vals"] = [val_s(x) for x in st.variables[op["copy_from"]]]
+        elif op.get("inplace_add") is not None:
+            op["vals"] = [val_s(float(x) + op["inplace_add"]) for x in st.variables[op["var"]]]
         try:
             apply_impl(st, op)
             got.append(snap(st))
@@ -211,7 +224,7 @@ def run(ctx: Ctx):
         ops, got = run_sequence(ctx, kinds)
         runs.append((kinds, ops, got))
         reqs.append(dict(op="state", extraI=EXTRA_I, extraP=EXTRA_P, defaults=DEFAULTS,
-                         ops=[{k: v for k, v in o.items() if k != "style"} for o in ops]))
+                         ops=[{k: v for k, v in o.items() if k not in ("style", "copy_from", "inplace_add")} for o in ops]))
     want = driver(reqs)
     for (kinds, ops, got), w in zip(runs, want):
         nontrivial = any(k in ("K", "Ks", "Klast") for k in kinds) and "C" in kinds
